@@ -262,3 +262,4 @@ def run(P, R, tier):
 
 
 EXPLANATION += ' Also: numerator / denominator placement and literal coefficients of the three blends, the sign of the squared adapted mean in the no-evidence fallback of the variances, the no-evidence test compares the responsibility mass with the configured threshold, the relevance-factor flag is passed with the right polarity; all of these are followed into a helper when the blend is factored out.'
+EXPLANATION += " (BRANCH.prior-side) the prior's parameters are handed over on the MAP / prior-present side of every switch around the hand-over."
